@@ -238,8 +238,12 @@ func checkAtom(r *mon.Report, u *uni, i int) {
 	crossCheckUpstream(r, conj{a}, u.orc[i], u.probes)
 	if u.bad[i] {
 		d := firstDiff(u.real[i], u.orc[i].without(u.nP), u.nP)
+		extra := ""
+		if a.Op == "Lt" && a.Vals[0] == minInt64S {
+			extra = " — Lt N is canonicalised to Lte N-1 without an underflow guard (Gt MaxInt64 has one): MinInt64-1 wraps to MaxInt64, so a requirement that admits nothing admits every integer"
+		}
 		r.Violate("has-disagrees:"+a.Op+boundSuffix(a),
-			fmt.Sprintf("NewRequirement(%s).Has(%q)=%v but the operator admits=%v under Kubernetes semantics", a, u.probes[d], u.real[i].has(d), u.orc[i].has(d)),
+			fmt.Sprintf("NewRequirement(%s).Has(%q)=%v but the operator admits=%v under Kubernetes semantics%s", a, u.probes[d], u.real[i].has(d), u.orc[i].has(d), extra),
 			map[string]any{"atom": a}, map[string]any{"probe": u.probes[d], "has": u.real[i].has(d), "oracle": u.orc[i].has(d), "requirement": q.String()})
 		return
 	}
@@ -270,8 +274,8 @@ func checkAtom(r *mon.Report, u *uni, i int) {
 		}
 	} else {
 		r.Inc("len_checks")
-		if q.Len() <= 0 {
-			r.Violate("len-disagrees:"+a.Op, fmt.Sprintf("NewRequirement(%s).Len()=%d for a co-finite set", a, q.Len()), map[string]any{"atom": a}, nil)
+		if ne, _ := nonEmptyExact(conj{a}); (q.Len() > 0) != ne {
+			r.Violate("len-disagrees:"+a.Op, fmt.Sprintf("NewRequirement(%s).Len()=%d but semantically non-empty=%v", a, q.Len(), ne), map[string]any{"atom": a}, nil)
 		}
 	}
 	// alias normalisation: constructing under an alias yields the canonical key and the same set
@@ -354,6 +358,13 @@ func checkOverlap(r *mon.Report, probes []string, nP int, qa, qb *scheduling.Req
 	wit := map[string]any{"HasIntersection": h, "HasIntersection_reversed": hr, "Intersection.Len": in.Len(), "Intersection": in.String(),
 		"left_requirement": qa.String(), "right_requirement": qb.String(), "semantically_nonempty": neStr, "nonempty_over_canonical_integers_only": neCanon}
 	shape := pairShape(ca, cb)
+	if len(ca)+len(cb) > 2 {
+		x, y := ca.class(), cb.class()
+		if x > y {
+			x, y = y, x
+		}
+		shape = x + "&" + y
+	}
 	switch {
 	case h != hr:
 		r.Violate("overlap-not-symmetric:"+shape, fmt.Sprintf("(%s).HasIntersection(%s)=%v but reversed=%v", ca, cb, h, hr), cs, wit)
@@ -374,15 +385,19 @@ func checkOverlap(r *mon.Report, probes []string, nP int, qa, qb *scheduling.Req
 		// so the overlap answer is right on the string domain. Counted, with an example, not a violation.
 		r.Inc("diag_overlap_true_nonempty_only_via_noncanonical_spelling")
 		if _, ok := r.Extra["diag_noncanonical_only_example"]; !ok {
-			w := ""
-			for i := 0; i < nP; i++ {
-				if want.has(i) {
-					w = probes[i]
-					break
+			if ns, acc := upstreamSelector(keyCustom, both); acc {
+				w := ""
+				for i := 0; i < nP; i++ {
+					if want.has(i) {
+						w = probes[i]
+						break
+					}
 				}
+				node := &corev1.Node{ObjectMeta: metav1.ObjectMeta{Name: "n", Labels: map[string]string{keyCustom: w}}}
+				r.Extra["diag_noncanonical_only_example"] = map[string]any{"left": ca.String(), "right": cb.String(), "label_value": w,
+					"upstream_nodeaffinity_Match": ns.Match(node), "Intersection.Has": in.Has(w), "HasIntersection": h,
+					"note": "every canonically spelled integer of the bounded range is excluded, but Kubernetes parses the zero-padded spelling to the same integer while NotIn compares raw strings, so the intersection is not empty"}
 			}
-			r.Extra["diag_noncanonical_only_example"] = map[string]any{"left": ca.String(), "right": cb.String(), "admitted_by_both_k8s_and_Has": w,
-				"Intersection.Has(witness)": in.Has(w)}
 		}
 	}
 	return true
@@ -491,18 +506,18 @@ func checkPair(r *mon.Report, u *uni, i, j int, triples bool) {
 		cs3 := map[string]any{"A": a.String(), "B": b.String(), "C": c.String()}
 		if lb != rb {
 			d := firstDiff(lb, rb, nP)
-			r.Violate("intersection-not-associative:"+conj{a, b, c}.shape(), fmt.Sprintf("(A∩B)∩C and A∩(B∩C) differ on %q for A=%s B=%s C=%s", u.probes[d], a, b, c), cs3,
+			r.Violate("intersection-not-associative:"+"triple/"+conj{a, b, c}.class(), fmt.Sprintf("(A∩B)∩C and A∩(B∩C) differ on %q for A=%s B=%s C=%s", u.probes[d], a, b, c), cs3,
 				map[string]any{"(AB)C": L.String(), "A(BC)": R.String()})
 			continue
 		}
 		if lb != want.without(nP) {
 			d := firstDiff(lb, want, nP)
-			r.Violate("intersection-admits-wrong-values:"+conj{a, b, c}.shape(), fmt.Sprintf("((%s)∩(%s))∩(%s) .Has(%q)=%v but the conjunction admits=%v", a, b, c, u.probes[d], lb.has(d), want.has(d)), cs3,
+			r.Violate("intersection-admits-wrong-values:"+"triple/"+conj{a, b, c}.class(), fmt.Sprintf("((%s)∩(%s))∩(%s) .Has(%q)=%v but the conjunction admits=%v", a, b, c, u.probes[d], lb.has(d), want.has(d)), cs3,
 				map[string]any{"probe": u.probes[d], "(AB)C": L.String(), "AB": I.String(), "C": C.String()})
 			continue
 		}
 		if n, fin := finiteCount(conj{a, b, c}); fin && L.Len() != n {
-			r.Violate("len-disagrees:"+conj{a, b, c}.shape(), fmt.Sprintf("((%s)∩(%s))∩(%s).Len()=%d but exactly %d values are admitted", a, b, c, L.Len(), n), cs3, map[string]any{"(AB)C": L.String()})
+			r.Violate("len-disagrees:"+"triple/"+conj{a, b, c}.class(), fmt.Sprintf("((%s)∩(%s))∩(%s).Len()=%d but exactly %d values are admitted", a, b, c, L.Len(), n), cs3, map[string]any{"(AB)C": L.String()})
 			continue
 		}
 		// overlap of a compound requirement with an atom (this is where bounded ranges meet exclusions)
@@ -512,7 +527,7 @@ func checkPair(r *mon.Report, u *uni, i, j int, triples bool) {
 			rs3 := scheduling.NewRequirements(newReq(keyCustom, a, nil), newReq(keyCustom, b, nil), newReq(keyCustom, c, nil))
 			r.Inc("add_vs_intersection_checks")
 			if realBits(rs3.Get(keyCustom), u.probes) != lb {
-				r.Violate("requirements-add-differs-from-intersection:"+conj{a, b, c}.shape(), fmt.Sprintf("NewRequirements(A,B,C).Get(key) differs from (A∩B)∩C for A=%s B=%s C=%s", a, b, c), cs3, nil)
+				r.Violate("requirements-add-differs-from-intersection:"+"triple/"+conj{a, b, c}.class(), fmt.Sprintf("NewRequirements(A,B,C).Get(key) differs from (A∩B)∩C for A=%s B=%s C=%s", a, b, c), cs3, nil)
 			}
 		}
 	}
@@ -544,6 +559,91 @@ func runAlgebraShard(r *mon.Report, tier string, shard int) {
 		r.Sample(map[string]any{"kind": "algebra", "atoms": n, "example_atoms": []string{u.atoms[0].String(), u.atoms[5].String(), u.atoms[n-1].String()},
 			"probes_excerpt": u.probes[:min(12, len(u.probes))]})
 	}
+}
+
+// ---- witness selection for the set-level monitors ----
+//
+// The set-level layers can witness one root cause millions of times. Every disagreement is counted
+// ("disagreements:<key>"); per case and key the three most realistic witnesses (fewest atoms, no negative or
+// int64-limit arguments, first configuration) are handed to Report.Violate when the case ends.
+
+type pendingViolation struct {
+	score   int
+	dedupe  string
+	key     string
+	what    string
+	cs, wit any
+}
+
+var pendingByKey = map[string][]pendingViolation{}
+
+func realism(cs ...conj) int {
+	n := 0
+	for _, c := range cs {
+		ex, dne := false, false
+		for _, a := range c {
+			n++
+			ex = ex || a.Op == "Exists"
+			dne = dne || a.Op == "DoesNotExist"
+			for _, v := range a.Vals {
+				if strings.HasPrefix(v, "-") {
+					n += 3
+				}
+				if len(v) > 15 {
+					n += 4
+				}
+			}
+		}
+		if ex && dne {
+			n += 2
+		}
+		if dne && len(c) > 1 {
+			n++
+		}
+	}
+	return n
+}
+
+func report(r *mon.Report, key string, score int, dedupe, what string, cs, wit any) {
+	r.Inc("disagreements:" + key)
+	l := pendingByKey[key]
+	for _, p := range l {
+		if p.dedupe == dedupe {
+			return
+		}
+	}
+	if len(l) == 3 && l[2].score <= score {
+		return
+	}
+	l = append(l, pendingViolation{score, dedupe, key, what, cs, wit})
+	sort.SliceStable(l, func(i, j int) bool { return l[i].score < l[j].score })
+	if len(l) > 3 {
+		l = l[:3]
+	}
+	pendingByKey[key] = l
+}
+
+func flush(r *mon.Report) {
+	keys := make([]string, 0, len(pendingByKey))
+	for k := range pendingByKey {
+		keys = append(keys, k)
+	}
+	sort.Strings(keys)
+	for _, k := range keys {
+		for _, p := range pendingByKey[k] {
+			r.Violate(p.key, p.what, p.cs, p.wit)
+		}
+	}
+	pendingByKey = map[string][]pendingViolation{}
+}
+
+var classText = map[string]string{
+	"unsat-conjunction-treated-as-DoesNotExist": "one side's conjunction admits neither any value nor the absent label (it is unsatisfiable), but the algebra stores it as the empty non-complement set, " +
+		"for which Operator() reports DoesNotExist, so Compatible/Intersects take the absent label to satisfy it",
+	"bounded-complement-with-exclusion-reports-NotIn-absent-allowed": "one side's conjunction contains an integer bound, which only a present label can satisfy, but Requirement.Operator() reports NotIn " +
+		"(exclusions make Len() < MaxInt64 and the bounds are ignored), so Compatible/Intersects take the absent / undefined label to satisfy it",
+	"exists-and-notin-collapses-to-NotIn-absent-allowed": "one side's conjunction is Exists AND NotIn[...]; Intersection stores it exactly like a plain NotIn[...] (complement set with exclusions), " +
+		"the presence demanded by Exists is lost, Operator() reports NotIn and Compatible/Intersects take the absent / undefined label to satisfy it",
 }
 
 // ---- compat layer: single-key requirement sets ----
@@ -711,28 +811,39 @@ func checkCompatPair(r *mon.Report, u *uni, sr, sq *side, cf compatCfg) {
 		return
 	}
 	cls := classify(nP, views...)
-	dir := func(got bool) string {
-		if got {
-			return "accepts-but-no-labelling-exists"
-		}
-		return "rejects-but-a-labelling-exists"
-	}
-	if gotCompat != wantCompat {
-		key := cls
-		if key == "" || !gotCompat {
-			// a rejection cannot be explained by "absent wrongly allowed"
-			key = "compatible-" + dir(gotCompat) + ":" + sr.c.shape() + "|" + sq.c.shape()
-		}
-		r.Violate(key, fmt.Sprintf("first={%s} second={%s} [%s]: Requirements.Compatible returned compatible=%v but %s (second.Operator()=%s, first.Operator()=%s)",
-			sr.c, sq.c, cf.name, gotCompat, explain(wantCompat), sq.op, sr.op), cs, wit)
-		return
+	method, got, want := "Compatible", gotCompat, wantCompat
+	if gotCompat == wantCompat {
+		method, got, want = "Intersects", gotInter, wantInter
 	}
 	key := cls
-	if key == "" || !gotInter {
-		key = "intersects-" + dir(gotInter) + ":" + sr.c.shape() + "|" + sq.c.shape()
+	if key == "" || !got { // a rejection cannot be explained by "absent wrongly allowed"
+		d := "accepts-but-no-labelling-exists"
+		if !got {
+			d = "rejects-but-a-labelling-exists"
+		}
+		key = strings.ToLower(method) + "-" + d + ":" + sr.c.class() + "|" + sq.c.class()
 	}
-	r.Violate(key, fmt.Sprintf("first={%s} second={%s}: Requirements.Intersects returned ok=%v but %s (second.Operator()=%s, first.Operator()=%s)",
-		sr.c, sq.c, gotInter, explain(wantInter), sq.op, sr.op), cs, wit)
+	r.DistinctAdd("disagreement_shapes", key+" first="+sr.c.shape()+" second="+sq.c.shape()+" method="+method)
+	if key == "unsat-conjunction-treated-as-DoesNotExist" {
+		if sq.c != nil && sq.ob.zero() {
+			r.Inc("diag_unsat_side_is_second")
+		} else {
+			r.Inc("diag_unsat_side_is_first_only")
+		}
+	}
+	score := realism(sr.c, sq.c) + 1
+	if cf.name != compatCfgs[0].name {
+		score++
+	}
+	if sr.c == nil { // the everyday shape: a pod constrains a key the NodePool does not define
+		score--
+	}
+	what := fmt.Sprintf("first={%s} second={%s} [%s]: Requirements.%s reported ok=%v but %s; first.Operator()=%q second.Operator()=%q",
+		sr.c, sq.c, cf.name, method, got, explain(want), sr.op, sq.op)
+	if t, ok := classText[key]; ok {
+		what += " — " + t
+	}
+	report(r, key, score, sr.c.String()+"|"+sq.c.String(), what, cs, wit)
 }
 
 func explain(want bool) string {
@@ -868,22 +979,22 @@ func runRandomAlgebra(r *mon.Report, rng *rand.Rand) {
 	r.Inc("associativity_random_folds")
 	if b1 != b2 {
 		d := firstDiff(b1, b2, nP)
-		r.Violate("intersection-order-dependent:"+c.shape(), fmt.Sprintf("two orders/bracketings of the intersection of {%s} differ on %q", c, probes[d]), cs, map[string]any{"one": f1.String(), "other": f2.String()})
+		r.Violate("intersection-order-dependent:"+"random/"+c.class(), fmt.Sprintf("two orders/bracketings of the intersection of {%s} differ on %q", c, probes[d]), cs, map[string]any{"one": f1.String(), "other": f2.String()})
 		return
 	}
 	if b1 != want.without(nP) {
 		d := firstDiff(b1, want, nP)
-		r.Violate("intersection-admits-wrong-values:"+c.shape(), fmt.Sprintf("intersection of {%s} .Has(%q)=%v but the conjunction admits=%v", c, probes[d], b1.has(d), want.has(d)), cs, map[string]any{"result": f1.String()})
+		r.Violate("intersection-admits-wrong-values:"+"random/"+c.class(), fmt.Sprintf("intersection of {%s} .Has(%q)=%v but the conjunction admits=%v", c, probes[d], b1.has(d), want.has(d)), cs, map[string]any{"result": f1.String()})
 		return
 	}
 	if k, fin := finiteCount(c); fin && f1.Len() != k {
-		r.Violate("len-disagrees:"+c.shape(), fmt.Sprintf("intersection of {%s} has Len()=%d but admits exactly %d values", c, f1.Len(), k), cs, map[string]any{"result": f1.String()})
+		r.Violate("len-disagrees:"+"random/"+c.class(), fmt.Sprintf("intersection of {%s} has Len()=%d but admits exactly %d values", c, f1.Len(), k), cs, map[string]any{"result": f1.String()})
 		return
 	}
 	rs := scheduling.NewRequirements(qs...)
 	r.Inc("add_vs_intersection_checks")
 	if realBits(rs.Get(keyCustom), probes) != b1 {
-		r.Violate("requirements-add-differs-from-intersection:"+c.shape(), fmt.Sprintf("NewRequirements({%s}).Get(key) differs from the folded intersection", c), cs, nil)
+		r.Violate("requirements-add-differs-from-intersection:"+"random/"+c.class(), fmt.Sprintf("NewRequirements({%s}).Get(key) differs from the folded intersection", c), cs, nil)
 		return
 	}
 	// overlap between two random halves
@@ -1061,13 +1172,18 @@ func runRandomCompat(r *mon.Report, rng *rand.Rand) {
 		if !got {
 			d = "rejects-but-a-labelling-exists"
 		}
-		key = strings.ToLower(method) + "-" + d + ":" + shape()
+		key = strings.ToLower(method) + "-" + d + ":multi-key-sets"
 	}
-	r.Violate(key, fmt.Sprintf("Requirements.%s(first=%v, second=%v, allowUndefinedWellKnown=%v) ok=%v but %s", method, first, second, allow, got, explain(want)), cs, wit)
+	wit["per_key_shapes_first|second"] = shape()
+	what := fmt.Sprintf("Requirements.%s(first=%v, second=%v, allowUndefinedWellKnown=%v) ok=%v but %s", method, first, second, allow, got, explain(want))
+	if t, ok := classText[key]; ok {
+		what += " — " + t
+	}
+	report(r, key, 20+realism(all), fmt.Sprint(first, second), what, cs, wit)
 }
 
 func runRandomChunk(r *mon.Report, tier string, idx int, rng *rand.Rand) {
-	per := 4000
+	per := 10000
 	if tier == "thorough" {
 		per = 40000
 	}
@@ -1126,6 +1242,7 @@ func run(r *mon.Report, tier string, idx int, rng *rand.Rand) {
 			runRandomChunk(r, tier, idx, rng)
 		}
 	})
+	flush(r)
 	if panicked {
 		key := "panic-in-requirement-algebra"
 		if !strings.Contains(stack, "sigs.k8s.io/karpenter/pkg/scheduling") {
